@@ -53,6 +53,9 @@ enum Op {
     /// (a guard already in wait mode stays in wait mode)
     DelayFlush(usize),
     WaitForData, // slot 0 only; may be called repeatedly
+    /// a wait_for_data() future created and dropped without ever being polled (what `select!` does
+    /// with a branch it never reaches): a no-op
+    WaitForDataUnpolled,
     MutateParent,
     DropParent,
     CreateForce,
@@ -73,6 +76,7 @@ struct Model {
     slots: [SlotState; 2],
     waited: u8,
     delays: u8,
+    unpolled: u8,
     force_alive: u32,
     force_created: u32,
     force_fired: bool,
@@ -84,7 +88,7 @@ struct Model {
 
 impl Model {
     fn new() -> Self {
-        Model { parent_alive: true, xy: (1, 2), slots: [SlotState::Unopened; 2], waited: 0, delays: 0, force_alive: 0, force_created: 0, force_fired: false, parent_mutations: 0, next_token: 100, emitted: None }
+        Model { parent_alive: true, xy: (1, 2), slots: [SlotState::Unopened; 2], waited: 0, delays: 0, unpolled: 0, force_alive: 0, force_created: 0, force_fired: false, parent_mutations: 0, next_token: 100, emitted: None }
     }
     fn due(&self) -> bool {
         !self.parent_alive && (self.force_fired || !self.slots.iter().any(|s| matches!(s, SlotState::Open { wait: true, .. })))
@@ -114,6 +118,9 @@ impl Model {
             }
             if self.parent_mutations < 1 {
                 v.push(Op::MutateParent);
+            }
+            if self.unpolled < 1 && !matches!(self.slots[0], SlotState::Unopened) {
+                v.push(Op::WaitForDataUnpolled);
             }
             if self.force_created < 1 {
                 v.push(Op::CreateForce);
@@ -163,6 +170,7 @@ impl Model {
                 }
             }
             Op::WaitForData => self.waited += 1,
+            Op::WaitForDataUnpolled => self.unpolled += 1,
             Op::DelayFlush(i) => {
                 if let SlotState::Open { wait, .. } = &mut self.slots[i] {
                     *wait = true;
@@ -280,6 +288,13 @@ impl Real {
                 } else {
                     self.g1.as_mut().unwrap().delay_flush(fg);
                 }
+                None
+            }
+            Op::WaitForDataUnpolled => {
+                let p = self.parent.as_mut().unwrap();
+                #[allow(deprecated)]
+                let fut = p.s0.wait_for_data();
+                drop(fut);
                 None
             }
             Op::WaitForData => {
@@ -428,7 +443,7 @@ fn busy_task_histories(rng: &mut Rng, n: usize, rep: &Report) -> bool {
             }
             // wait_for_data is left out here: awaiting inside a task without budget means yielding to
             // the runtime, which this synchronous driver cannot do
-            let en: Vec<Op> = m.enabled().into_iter().filter(|o| !matches!(o, Op::WaitForData)).collect();
+            let en: Vec<Op> = m.enabled().into_iter().filter(|o| !matches!(o, Op::WaitForData | Op::WaitForDataUnpolled)).collect();
             let op = *rng.pick(&en);
             m.apply(op);
             ops.push(op);
@@ -759,7 +774,7 @@ fn main() {
     }
     rep.rule(
         "(a) EVERY single-thread op sequence up to length L over a parent with a Slot and a LazySlot: open(wait|discard) (also a second open), mutate through the guard, \
-         drop guard (also by unwinding), delay_flush on an open guard of either mode, wait_for_data, mutate/drop parent, create/drop a force-flush guard; after every op the number of appended entries and the content (parent fields, slot values as \
+         drop guard (also by unwinding), delay_flush on an open guard of either mode, wait_for_data, a wait_for_data future dropped un-polled, mutate/drop parent, create/drop a force-flush guard; after every op the number of appended entries and the content (parent fields, slot values as \
          last mutated, absent when the guard was still alive) must equal the reference. (b) parent, slot guards and a force-flush guard dropped on separate threads released by a barrier (in part of them slot 0's wait-mode guard is Debug-formatted on another thread while slot 1's flush guard is taken), \
          perturbed at the hook between the guard's send and the release of its flush guard; assertions hold in every linearization. (c) random op sequences run inside a tokio task whose cooperative budget is used up. distinct = distinct op sequences / outcome classes",
     );
